@@ -67,6 +67,33 @@ type Parser struct {
 	tokenizer            *Tokenizer
 	shouldIndex          bool
 	reportInternalErrors bool
+	// nesting is the number of list types, list / object values and selection sets
+	// the parser is currently inside of, see enterNested
+	nesting int
+}
+
+// maxNestingDepth bounds how deep list types, list / object values and selection sets may be nested.
+// The parser descends recursively, one call per level: without a bound a few megabytes of '[' or '{'
+// exhaust the goroutine stack, which is a fatal error that cannot be recovered from.
+const maxNestingDepth = 1000
+
+// enterNested is called on entry of every parse function that can (indirectly) call itself.
+// It reports an error and returns false when the input is nested too deeply; leaveNested undoes it.
+func (p *Parser) enterNested() bool {
+	p.nesting++
+	if p.nesting > maxNestingDepth {
+		if !p.report.HasErrors() {
+			p.report.AddExternalError(operationreport.ExternalError{
+				Message: fmt.Sprintf("document is nested too deeply - more than %d levels of lists, objects or selection sets", maxNestingDepth),
+			})
+		}
+		return false
+	}
+	return true
+}
+
+func (p *Parser) leaveNested() {
+	p.nesting--
 }
 
 // NewParser returns a new parser with all values properly initialized
@@ -82,6 +109,7 @@ func NewParser() *Parser {
 func (p *Parser) PrepareImport(document *ast.Document, report *operationreport.Report) {
 	p.document = document
 	p.report = report
+	p.nesting = 0
 	p.tokenize()
 }
 
@@ -89,6 +117,7 @@ func (p *Parser) PrepareImport(document *ast.Document, report *operationreport.R
 func (p *Parser) Parse(document *ast.Document, report *operationreport.Report) {
 	p.document = document
 	p.report = report
+	p.nesting = 0
 	p.tokenize()
 	p.parse()
 	p.precalculate()
@@ -102,6 +131,7 @@ func (p *Parser) tokenize() {
 func (p *Parser) ParseWithLimits(limits TokenizerLimits, document *ast.Document, report *operationreport.Report) (TokenizerStats, error) {
 	p.document = document
 	p.report = report
+	p.nesting = 0
 	stats, err := p.tokenizer.TokenizeWithLimits(limits, &p.document.Input)
 	if err != nil {
 		return stats, err
@@ -460,6 +490,10 @@ Loop:
 }
 
 func (p *Parser) ParseValue() (value ast.Value) {
+	if !p.enterNested() {
+		return
+	}
+	defer p.leaveNested()
 
 	next, literal := p.peekLiteral()
 
@@ -892,6 +926,10 @@ func (p *Parser) parseNamedType() (ref int) {
 }
 
 func (p *Parser) ParseType() (ref int) {
+	if !p.enterNested() {
+		return ast.InvalidRef
+	}
+	defer p.leaveNested()
 
 	first := p.peek()
 
@@ -1318,6 +1356,10 @@ func (p *Parser) parseDirectiveLocations(locations *ast.DirectiveLocations) {
 }
 
 func (p *Parser) parseSelectionSet() (int, bool) {
+	if !p.enterNested() {
+		return ast.InvalidRef, false
+	}
+	defer p.leaveNested()
 
 	var set ast.SelectionSet
 
